@@ -838,6 +838,50 @@ func hasTimer(series []int) bool {
 	return false
 }
 
+// packing describes one flush of the datagram-packing sweep of the statsd relay: a counter whose name has
+// NameLen characters followed by N values of one timer, all with or without a tag. Every line of the
+// timer has the same length, so sweeping NameLen over more than one line length puts the fill level
+// of the first datagram at every residue - in particular one byte below, at and above the limit.
+type packing struct {
+	NameLen int
+	N       int
+	Tagged  bool
+}
+
+func checkPacking(pk packing) {
+	mm := gostatsd.NewMetricMap(false)
+	var tags gostatsd.Tags
+	var wtags []string
+	if pk.Tagged {
+		tags, wtags = gostatsd.Tags{"a:b"}, []string{"a:b"}
+	}
+	name := strings.Repeat("c", pk.NameLen)
+	mm.Receive(&gostatsd.Metric{Name: name, Type: gostatsd.COUNTER, Value: 1, Rate: 1, Tags: tags.Copy(), Timestamp: 7})
+	want := mapref.Agg{}
+	want.Add(mapref.DP{Type: "c", Name: name, Tags: wtags, Value: 1, Rate: 1})
+	for i := 0; i < pk.N; i++ {
+		mm.Receive(&gostatsd.Metric{Name: "t", Type: gostatsd.TIMER, Value: 1, Rate: 1, Tags: tags.Copy(), Timestamp: 7})
+		want.Add(mapref.DP{Type: "ms", Name: "t", Tags: wtags, Value: 1, Rate: 1})
+	}
+	for _, kind := range []string{"statsdaemon-udp", "statsdaemon-tcp"} {
+		rp := map[string]any{"packing": pk, "kind": kind}
+		c, relay, problem := runBackend(kind, 0, mapSpec{}, mm)
+		if problem != "" {
+			res.Violate("run "+kind, fmt.Sprintf("packing %+v: %s", pk, problem), rp)
+			continue
+		}
+		for _, p := range c.problems {
+			res.Violate("relay-packing "+kind, fmt.Sprintf("backend %s, counter with a %d character name then %d timer values (tagged=%v): %s", kind, pk.NameLen, pk.N, pk.Tagged, p), rp)
+		}
+		if d := mapref.Diff(relay, want, "last", false); d != "" {
+			res.Violate("relay-packing-roundtrip "+kind, fmt.Sprintf("backend %s packing %+v: %s", kind, pk, d), rp)
+		}
+		if kind == "statsdaemon-udp" && c.payloads >= 2 {
+			nontrivial[fmt.Sprintf("packing%+v", pk)] = struct{}{}
+		}
+	}
+}
+
 func main() {
 	res = vrt.Init()
 	if *vrt.ReplayPath != "" {
@@ -845,9 +889,12 @@ func main() {
 			Spec       mapSpec
 			Kind       string
 			Underscore bool
+			Packing    *packing
 		}
 		vrt.LoadReplay(&rp)
-		if rp.Underscore {
+		if rp.Packing != nil {
+			checkPacking(*rp.Packing)
+		} else if rp.Underscore {
 			menu = append(menu, ser{"c", "_x", []string{"k:v"}, "h", []float64{2}})
 			c, _, _ := runBackend(rp.Kind, 0, rp.Spec, flushed(rp.Spec))
 			for _, p := range c.problems {
@@ -923,6 +970,17 @@ func main() {
 			}
 		}
 		menu = menu[:len(menu)-1]
+	}
+	// datagram packing of the relay at every fill level around the limit
+	for _, tagged := range []bool{false, true} {
+		for k := 1; k <= 24; k++ {
+			for _, n := range []int{90, 120, 230} {
+				i++
+				if vrt.Mine(i) {
+					checkPacking(packing{k, n, tagged})
+				}
+			}
+		}
 	}
 	if vrt.Expired() {
 		res.Exhaustive = false
